@@ -5,6 +5,7 @@ CONSTANTS
   ObeySet = {"all"}
   EASet = {"none", "secs"}
   WithInterrupt = TRUE
+  EarlyExit = TRUE
   Emit = TRUE
 INIT Init
 NEXT Next
